@@ -214,7 +214,14 @@ impl Property for C13 {
                 } else {
                     // v2: a built-in function that rejects an argument written on the NEXT line of the call:
                     // the error belongs to the argument's line
-                    if crate::engine::gen_version() >= 2 && t.chance(1, 8) {
+                    if crate::engine::gen_version() >= 3 && t.chance(1, 10) {
+                        // v3: the failing constraint lies three rules deep (instruction -> asm block -> asm block -> typed
+                        // parameter / assert): the first error still belongs to the line the user wrote
+                        let deep = *t.pick(&["zqc {v: u8} => 0x77 @ v", "zqc {v} => { assert(v < 0x100), 0x77 @ v`8 }"]);
+                        prog.items[at] = Item::Raw(format!("#ruledef zqn\n{{\n    {}\n    zqb {{v}} => asm {{ zqc {{v}} }}\n    zqa {{v}} => asm {{ zqb {{v}} }}\n}}\nzqa 0x1ff", deep));
+                        fault_line_offset = 6;
+                        kind = "constraint-fails-three-rules-deep";
+                    } else if crate::engine::gen_version() >= 2 && t.chance(1, 8) {
                         // v2: an asm-block rule defined at the very END of the file, called with an operand that is
                         // much longer than its placeholder and out of range for the inner instruction
                         let n = t.urange(20, 120);
@@ -292,7 +299,7 @@ impl Property for C13 {
         }
         ctx.label(format!("fault:{}", kind));
         // the language rules must reject exactly that item (malformed directives are not modelled: syntax errors)
-        if !kind.starts_with("malformed-directive") && kind != "builtin-rejects-argument-on-next-line" && kind != "asm-block-faulty-substitution" && kind != "asm-block-argument-out-of-range" {
+        if !kind.starts_with("malformed-directive") && kind != "builtin-rejects-argument-on-next-line" && kind != "asm-block-faulty-substitution" && kind != "asm-block-argument-out-of-range" && kind != "constraint-fails-three-rules-deep" {
             match refasm::assemble(&prog) {
                 RefResult::Reject { item, .. } if item == fault_item => {}
                 _ => {
@@ -301,7 +308,13 @@ impl Property for C13 {
                 }
             }
         } else {
+            // the raw text of these kinds is not interpreted by the reference (it skips it): the REST of the program
+            // must be valid by the rules, so that the injected fault is the only one
             let _ = lit_of(0);
+            if !matches!(refasm::assemble(&prog), RefResult::Ok(_)) {
+                ctx.skipped = true;
+                return Verdict::Pass;
+            }
         }
         let r = render_tracked(t, &prog);
         let mut h = 0u64;
